@@ -9,8 +9,13 @@ From Relay Require Import Base.Prelude Base.AList Model.Resources.
 
 Record obs := mkobs {
   o_readers : N; o_writers : N; o_watchers : N;
+  o_timers : N;           (* live expiry timers: the watchers where only goroutines are looked at, the heap profile's
+                             count of live timers armed by connection code in the heap scenario *)
   o_topics : list N;      (* topic of every member the status report lists (beyond the baseline) *)
-  o_chan : N; o_socks : N }.
+  o_chan : N;
+  o_parents : N;          (* booking ids the chanmap store keeps a child map for (every booking id of a history is
+                             used by one connection, so no more than the entries) *)
+  o_socks : N }.
 
 Definition case := (list event * obs)%type.
 
@@ -18,9 +23,9 @@ Definition case_ok (c : case) : bool :=
   let '(h, o) := c in
   let s := settle_all (run h) in
   (count_res Reader s =? o_readers o)%N && (count_res Writer s =? o_writers o)%N &&
-  (count_res Watcher s =? o_watchers o)%N &&
+  (count_res Watcher s =? o_watchers o)%N && (count_res Timer s =? o_timers o)%N &&
   list_eqb N.eqb (report_topics s) (sortN (o_topics o)) &&
-  (count_res ChanEntry s =? o_chan o)%N &&
+  (count_res ChanEntry s =? o_chan o)%N && (o_parents o <=? count_res ChanEntry s)%N &&
   (o_socks o <=? count_res Sock s)%N && (live (run h) <=? o_socks o)%N.
 
 (* non-trivial: at least one accepted connection has ended in the history *)
